@@ -243,10 +243,11 @@ MUTANTS = [
     _m('defaults-wrong-offset', T.RTYPE, "defaults[idx-len(arg_names)]", "defaults[idx-num_defaults]", 'R-tr-modname'),
     _m('defaults-offset-by-supplied', T.RTYPE, "defaults[idx-len(arg_names)]", "defaults[idx-num_supplied]", 'R-tr-modname'),
     # chained assignments / name resolution / dimension order
-    # re-introductions of the chained-assignment defect on a tree that carries the repair (stale otherwise)
+    # re-introductions of the chained-assignment defect
     _m('chain-copy-reevaluates-rhs', VB1, "    source = targets[-1] if node.blocking else value\n", "    source = value\n", 'R-tr-assign'),
     _m('chain-copy-also-when-nonblocking', VB1, "    source = targets[-1] if node.blocking else value\n", "    source = targets[-1]\n", 'R-tr-assign'),
-    _m('chain-targets-in-source-order', VB1, "    ) for target in reversed(targets) ]", "    ) for target in targets ]", 'R-tr-assign'),
+    _m('chain-first-statement-assigns-first-target', VB1, "      target = targets[-1], assignment_op = assignment_op, value = value\n    ) ]",
+       "      target = targets[0], assignment_op = assignment_op, value = value\n    ) ]", 'R-tr-assign'),
     _m('tmpvar-lookup-before-loopvar', GEN2, "      if node.id in s.loop_var_env:\n        ret = bir.LoopVar( node.id )\n      elif node.id in s.tmp_var_env:\n        ret = bir.TmpVar( node.id, s._upblk_name )\n",
        "      if node.id in s.tmp_var_env:\n        ret = bir.TmpVar( node.id, s._upblk_name )\n      elif node.id in s.loop_var_env:\n        ret = bir.LoopVar( node.id )\n", 'R-tr-name-scope'),
     _m('unknown-name-load-becomes-tmpvar', GEN2, "      elif isinstance( node.ctx, ast.Load ):", "      elif False and isinstance( node.ctx, ast.Load ):", 'R-tr-name-scope'),
@@ -341,8 +342,9 @@ EQUIV = [
        "    for stmt in node.body:\n      body.extend( s.visit( stmt ) )\n",
        "    body = [ line for stmt in node.body for line in s.visit( stmt ) ]\n", count='first'),
     _m('assign-statements-as-append-loop', T.SV_B[1],
-       "    return [ tplt.format(\n      target = target, assignment_op = assignment_op, value = value\n    ) for target in reversed(targets) ]\n",
-       "    stmts = []\n    for target in reversed(targets):\n      stmts.append( tplt.format( target = target, assignment_op = assignment_op, value = value ) )\n    return stmts\n"),
+       "    stmts += [ tplt.format(\n      target = target, assignment_op = assignment_op, value = source\n    ) for target in reversed(targets[:-1]) ]\n",
+       "    for target in reversed(targets[:-1]):\n      stmts.append( tplt.format( target = target, assignment_op = assignment_op, value = source ) )\n"),
+    _m('chain-copies-in-source-order', T.SV_B[1], "    ) for target in reversed(targets[:-1]) ]", "    ) for target in targets[:-1] ]"),
     _m('slice-upper-commuted', VB1, "upper = str( int( node.upper._value - 1 ) )", "upper = str( int( -1 + node.upper._value ) )"),
     _m('truncate-cast-on-equal-width', VB1, "if isinstance(dtype, rdt.Vector) and dtype.get_length() > nbits:",
        "if isinstance(dtype, rdt.Vector) and dtype.get_length() >= nbits:"),
